@@ -6,3 +6,21 @@ func VerifNextState(sm StateMap, ctx any, cur State, msg Message) (State, error)
 	p := &Protocol{config: ProtocolConfig{StateMap: sm, StateContext: ctx}}
 	return p.nextState(cur, msg)
 }
+
+// VerifRecordingProtocol builds a Protocol whose send queue exists (what Start() creates) but
+// whose loops are not running: messages passed to the real SendMessage stay in the queue.
+func VerifRecordingProtocol(sm StateMap, initial State) *Protocol {
+	p := New(ProtocolConfig{StateMap: sm, InitialState: initial, ErrorChan: make(chan error, 10)})
+	p.sendQueueChan = make(chan outboundMessage, 80)
+	return p
+}
+
+// VerifDrainSent removes and returns the queued outbound messages, in queue order.
+func VerifDrainSent(p *Protocol) []Message {
+	var out []Message
+	for len(p.sendQueueChan) > 0 {
+		m := <-p.sendQueueChan
+		out = append(out, m.message)
+	}
+	return out
+}
